@@ -88,6 +88,8 @@ def rich_image(rng, ft, **geom):
         s = lfn_slots("missing ordinal in the middle of it.txt", b"MISSIN~1TXT")
         r += s[:32] + s[64:] + dirent(b"MISSIN~1TXT", 0x20, 0, 0)                          # ordinal 2 of 3 missing
         r += dirent(b"\x05LPHA   TXT", 0x20, 0, 0)                                          # 0x05 lead byte = 0xE5
+        if roomy:
+            r += dirent(b"SECONDLABEL", 0x28, 0, 0)                                          # a label as Windows writes it: VOLUME_ID | ARCHIVE
         if roomy:                                                                            # 0x05 lead byte below a valid long-name set:
             r += lfn_slots("sigma starts the alias.txt", b"\x05IGMAS~1TXT") + dirent(b"\x05IGMAS~1TXT", 0x20, 0, 0)   # checksum over the STORED bytes
         r += b"\0" * 32 + dirent(b"AFTEREND   ", 0x20, 0, 0)                                # behind the end mark
